@@ -7,7 +7,11 @@
 // must be unchanged; >= 20 other passwords (neighbours of the real one) must be rejected and leave
 // the wallet untouched; Unlock with the password must give back identical entries, secrets and
 // serialisation (modulo the encryption flag fields); for bip44, addresses derived while locked
-// gain their (reference-checked) secrets on unlock.
+// gain their (reference-checked) secrets on unlock. The wallet's coin type (skycoin / bitcoin,
+// coin.go) is a dimension of the construction: one wallet in three is a bitcoin wallet, whose
+// file carries base58check addresses and wallet-import-format secret keys (searched for as such;
+// restored secrets are compared as raw key bytes). A control decides the restart branch: when
+// the loader refuses the wallet's PLAIN file already, the locked file is not expected to load.
 //
 // Monitor L (legacy.go): the same oracle for wallets LOADED FROM FILES with incomplete or edited
 // metadata (the repository's old *.wlt fixtures and structured mutations of current files), the
@@ -101,6 +105,13 @@ func main() {
 	for _, k := range []string{"deterministic", "bip44", "collection"} {
 		fl("A.roundtrip."+k+".sha256-xor", 50, 900)
 		fl("A.roundtrip."+k+".scrypt-chacha20poly1305-insecure", 6, 150)
+		fl("A.roundtrip."+k+".coin.skycoin", 35, 700)
+		fl("A.roundtrip."+k+".coin.bitcoin", 15, 300)
+	}
+	for _, c := range coinTypes {
+		fl("A.roundtrip.coin."+string(c)+".sha256-xor", 50, 900)
+		fl("A.roundtrip.coin."+string(c)+".scrypt-chacha20poly1305-insecure", 5, 100)
+		fl("A.unlock.via_reloaded_file.coin."+string(c), 10, 250)
 	}
 	if !q {
 		r.Floor("A.roundtrip.default_scrypt", 2)
@@ -111,6 +122,7 @@ func main() {
 	fl("A.unlock.identical", 300, 5000)
 	fl("A.unlock.via_reloaded_file", 80, 1200)
 	fl("A.bip44.locked_generation.secrets_gained", 100, 1500)
+	fl("A.bip44.locked_generation.secrets_gained.coin.bitcoin", 25, 400)
 	floorsL(r, fl)
 	fl("B.inputs", 40000, 2000000)
 	for _, c := range []string{"sha256-xor", "scrypt-chacha20poly1305"} {
@@ -126,9 +138,10 @@ func main() {
 	fl("B.scrypt-chacha20poly1305.crafted_meta.reached_aead", 300, 15000)
 	fl("B.scrypt-chacha20poly1305.crafted_prefix", 1200, 60000)
 	fl("B.sha256-xor.crafted_checksum", 1500, 60000)
-	r.Finish("A: wallets (deterministic / bip44 incl. change chain and second account / collection) with random seeds, passphrases and passwords, locked with sha256-xor or scrypt (insecure registration; the default one twice in the thorough tier); L: wallet files (the repository's *.wlt fixtures and serialisations of fresh wallets) passed through a structured JSON mutator of the optional meta fields (removed / empty / version-0.1 profile / coin alias / no crypto type), loaded with wallet.Load, then locked, saved, reloaded, opened with other passwords and the right one, locked again with a second password - expected secrets taken from the file by the harness' own JSON model; B: per cipher random bytes, random base64, valid ciphertexts (right/wrong password), every kind of text- and raw-level deletion/truncation/bit flip, and structured metadata (length prefix, JSON fields, scrypt parameters, nonce/salt sizes; for sha256-xor payload edits with a recomputed outer checksum); all drawn from the run seed",
+	r.Finish("A: wallets (deterministic / bip44 incl. change chain and second account / collection; coin type skycoin or, one in three, bitcoin) with random seeds, passphrases and passwords, locked with sha256-xor or scrypt (insecure registration; the default one twice in the thorough tier); L: wallet files (the repository's *.wlt fixtures and serialisations of fresh wallets, every other one of these a bitcoin wallet) passed through a structured JSON mutator of the optional meta fields (removed / empty / version-0.1 profile / coin alias / no crypto type), loaded with wallet.Load, then locked, saved, reloaded, opened with other passwords and the right one, locked again with a second password - expected secrets taken from the file by the harness' own JSON model; B: per cipher random bytes, random base64, valid ciphertexts (right/wrong password), every kind of text- and raw-level deletion/truncation/bit flip, and structured metadata (length prefix, JSON fields, scrypt parameters, nonce/salt sizes; for sha256-xor payload edits with a recomputed outer checksum); all drawn from the run seed",
 		"harness safety bound: crafted scrypt metadata keeps N*r <= 2^15, p <= 4, keyLen <= 1024 (a crafted N=2^30 would make the code allocate terabytes; that resource question is outside this check)",
-		"the secret scan looks for plain, hex (both cases) and base64 (std/raw/url) encodings and, for mnemonics, every run of four consecutive words; other encodings are not searched",
+		"the secret scan looks for plain, hex (both cases), base64 (std/raw/url) and, for secret keys, wallet-import-format (compressed and uncompressed, harness' own base58check) encodings and, for mnemonics, every run of four consecutive words; other encodings are not searched",
+		"A: a wallet whose plain (never locked) file the loader refuses is followed in memory only (counter A.control.plain_file_refused_by_loader.*): on this tree that is every collection wallet of coin type bitcoin made by the constructor, which writes skycoin addresses into it (proposed fix collection-coin-address.diff); L writes such files with the coin's addresses itself, so the file path of that class is covered there",
 		"a hang of the decrypt child is reported as inconclusive, not as a violation",
 		"L: a mutated file the loader refuses (error, or a panic inside the loader) is counted and dropped, and so is a file the loader accepts although its own IsEncrypted cannot read the flag; meta fields that are absent and fields that are empty are treated as equal when comparing the serialisation before lock and after unlock; files without a crypto type cost a default-scrypt derivation per step, so that class is small (3 files in the quick tier, one other password on one of them)")
 }
@@ -214,7 +227,7 @@ func corpusOf(s snapshot, kind string) []needle {
 	}
 	for _, fe := range s.entries {
 		if fe.E.Secret != (cipher.SecKey{}) {
-			c = append(c, encodings("secretKey", fe.E.Secret[:], false)...)
+			c = append(c, secretKeyNeedles(fe.E.Secret[:])...)
 		}
 	}
 	for _, x := range s.xprvs {
@@ -323,6 +336,7 @@ func wrongPasswords(rng *rand.Rand, pw []byte, n int) []otherPassword {
 func roundTrip(r *vf.Run, i int, defaultScrypt bool) {
 	rng := r.Rand("A", i)
 	kind := []string{wallet.WalletTypeDeterministic, wallet.WalletTypeBip44, wallet.WalletTypeCollection}[rng.Intn(3)]
+	coin := drawCoin(rng) // see coin.go
 	ct := crypto.CryptoTypeSha256Xor
 	if rng.Intn(6) == 0 {
 		ct = crypto.CryptoTypeScryptChacha20poly1305Insecure
@@ -343,15 +357,15 @@ func roundTrip(r *vf.Run, i int, defaultScrypt bool) {
 	switch kind {
 	case wallet.WalletTypeDeterministic:
 		seed := wfix.SeedString(rng)
-		w, err = wallet.NewWallet(id+".wlt", "label-"+id, seed, wallet.Options{Type: kind, GenerateN: uint64(1 + rng.Intn(8))})
-		logf("deterministic seed=%q", seed)
+		w, err = wallet.NewWallet(id+".wlt", "label-"+id, seed, wallet.Options{Type: kind, Coin: coin, GenerateN: uint64(1 + rng.Intn(8))})
+		logf("deterministic coin=%s seed=%q", coin, seed)
 	case wallet.WalletTypeBip44:
 		seed := wfix.Mnemonic(rng)
 		pass := ""
 		if rng.Intn(3) > 0 {
 			pass = "Phrase-" + wfix.RandToken(rng, 6+rng.Intn(8))
 		}
-		w, err = wallet.NewWallet(id+".wlt", "label-"+id, seed, wallet.Options{Type: kind, SeedPassphrase: pass, GenerateN: uint64(1 + rng.Intn(5))})
+		w, err = wallet.NewWallet(id+".wlt", "label-"+id, seed, wallet.Options{Type: kind, Coin: coin, SeedPassphrase: pass, GenerateN: uint64(1 + rng.Intn(5))})
 		if err == nil {
 			if k := rng.Intn(4); k > 0 {
 				_, err = w.GenerateAddresses(wallet.OptionGenerateN(uint64(k)), wallet.OptionChange())
@@ -362,17 +376,17 @@ func roundTrip(r *vf.Run, i int, defaultScrypt bool) {
 				_, err = w.GenerateAddresses(wallet.OptionGenerateN(uint64(1+rng.Intn(3))), wallet.OptionAccount(1))
 			}
 		}
-		logf("bip44 seed=%q pass=%q", seed, pass)
+		logf("bip44 coin=%s seed=%q pass=%q", coin, seed, pass)
 	case wallet.WalletTypeCollection:
 		keys := make([]cipher.SecKey, 1+rng.Intn(6))
 		for j := range keys {
 			keys[j] = wfix.SecKey(rng)
 		}
-		w, err = wallet.NewWallet(id+".wlt", "label-"+id, "", wallet.Options{Type: kind, CollectionPrivateKeys: keys})
-		logf("collection %d keys", len(keys))
+		w, err = wallet.NewWallet(id+".wlt", "label-"+id, "", wallet.Options{Type: kind, Coin: coin, CollectionPrivateKeys: keys})
+		logf("collection coin=%s %d keys", coin, len(keys))
 	}
 	attrs := func(extra ...string) map[string]string {
-		m := map[string]string{"monitor": "A", "wallet": kind, "cipher": string(ct)}
+		m := map[string]string{"monitor": "A", "wallet": kind, "coin": string(coin), "cipher": string(ct)}
 		for j := 0; j+1 < len(extra); j += 2 {
 			m[extra[j]] = extra[j+1]
 		}
@@ -380,6 +394,10 @@ func roundTrip(r *vf.Run, i int, defaultScrypt bool) {
 	}
 	if err != nil {
 		r.Violation("harness-create-failed", attrs("error", err.Error()), trace)
+		return
+	}
+	if w.Coin() != coin {
+		r.Violation("harness-create-failed", attrs("error", "constructor ignored the coin type: "+string(w.Coin())), trace)
 		return
 	}
 	w.SetCryptoType(ct)
@@ -396,7 +414,7 @@ func roundTrip(r *vf.Run, i int, defaultScrypt bool) {
 	r.Eval(1)
 	// sanity of the scan itself: the plain secrets are visible before locking
 	for _, n := range corpus {
-		if !strings.Contains(n.what, "/") || n.what == "secretKey/hex" {
+		if !strings.Contains(n.what, "/") || n.what == secretTextEncoding(coin) {
 			if bytes.Contains(pre.ser, n.b) {
 				r.Count("A.corpus.present_before_lock", 1)
 			} else {
@@ -405,14 +423,28 @@ func roundTrip(r *vf.Run, i int, defaultScrypt bool) {
 		}
 	}
 
+	// control for the restart branch below: does the loader read this wallet's file at all (before
+	// any locking)? If not, that the locked file does not load either says nothing about locking.
+	dir := vf.TempDir("c18a")
+	defer os.RemoveAll(dir)
+	plainLoads := false
+	if cdir := filepath.Join(dir, "plain"); os.MkdirAll(cdir, 0700) == nil && wallet.Save(w, cdir) == nil {
+		vf.Recover(func() {
+			w0, err := wallet.Load(filepath.Join(cdir, w.Filename()))
+			plainLoads = err == nil && w0 != nil
+		})
+		os.RemoveAll(cdir)
+	}
+	if !plainLoads {
+		r.Count("A.control.plain_file_refused_by_loader."+kind+"."+string(coin), 1)
+	}
+
 	// ---- Lock ----
 	logf("lock %s", ct)
 	if err := w.Lock(pw); err != nil {
 		r.Violation("lock-failed", attrs("error", err.Error()), witness(nil))
 		return
 	}
-	dir := vf.TempDir("c18a")
-	defer os.RemoveAll(dir)
 	locked := snap(w)
 	if !w.IsEncrypted() {
 		r.Violation("not-encrypted-after-lock", attrs(), witness(nil))
@@ -452,7 +484,7 @@ func roundTrip(r *vf.Run, i int, defaultScrypt bool) {
 
 	// continue with the wallet as a restarted node would see it, half of the time
 	reloaded := false
-	if rng.Intn(2) == 0 {
+	if rng.Intn(2) == 0 && plainLoads {
 		w2, err := wallet.Load(filepath.Join(dir, w.Filename()))
 		if err != nil || w2 == nil {
 			r.Violation("locked-wallet-does-not-load", attrs("error", fmt.Sprint(err)), witness(nil))
@@ -532,9 +564,14 @@ func roundTrip(r *vf.Run, i int, defaultScrypt bool) {
 			r.Count("A.roundtrip.default_scrypt", 1)
 		} else {
 			r.Count("A.roundtrip."+kind+"."+string(ct), 1)
+			r.Count("A.roundtrip."+kind+".coin."+string(coin), 1)
+			r.Count("A.roundtrip.coin."+string(coin)+"."+string(ct), 1)
+			if reloaded {
+				r.Count("A.unlock.via_reloaded_file.coin."+string(coin), 1)
+			}
 		}
-		r.Distinct(fmt.Sprintf("%s/%s/%d/%x", kind, ct, len(pre.entries), sha256.Sum256(pre.ser)))
-		r.Sample(map[string]interface{}{"monitor": "A", "wallet": kind, "cipher": string(ct), "entries": len(pre.entries), "needles": len(corpus), "other_passwords_tried": len(wp), "reloaded_from_file": reloaded})
+		r.Distinct(fmt.Sprintf("%s/%s/%s/%d/%x", kind, coin, ct, len(pre.entries), sha256.Sum256(pre.ser)))
+		r.Sample(map[string]interface{}{"monitor": "A", "wallet": kind, "coin": string(coin), "cipher": string(ct), "entries": len(pre.entries), "needles": len(corpus), "other_passwords_tried": len(wp), "reloaded_from_file": reloaded})
 	}
 
 	// ---- bip44: addresses derived while locked gain their secrets on unlock ----
@@ -583,7 +620,7 @@ func roundTrip(r *vf.Run, i int, defaultScrypt bool) {
 				r.Violation("secret-missing-for-address-derived-while-locked", attrs("address", fe.E.Address.String()), witness(nil))
 				return
 			}
-			if err := wfix.CheckEntry(wallet.CoinTypeSkycoin, fe.E, cache); err != nil {
+			if err := wfix.CheckEntry(coin, fe.E, cache); err != nil {
 				r.Violation("secret-wrong-for-address-derived-while-locked", attrs("detail", err.Error()), witness(nil))
 				return
 			}
@@ -598,6 +635,7 @@ func roundTrip(r *vf.Run, i int, defaultScrypt bool) {
 			return
 		}
 		r.Count("A.bip44.locked_generation.secrets_gained", int64(gained))
+		r.Count("A.bip44.locked_generation.secrets_gained.coin."+string(coin), int64(gained))
 		// and a later unlock with another password is still refused
 		if got, err := w.Unlock(wp[len(wp)-1].pw); err == nil || got != nil {
 			r.Violation("wrong-password-accepted", attrs("neighbour", wp[len(wp)-1].how, "phase", "after locked generation"), witness(nil))
